@@ -51,7 +51,7 @@ Lemma rw_begin s evs stable fo ae r :
   free_offset r = fo -> tear_ok (dur (D s evs)) (next_slot stable) r ->
   rw s (evs ++ [ERootBegin r]) stable r (dur (D s evs)).
 Proof.
-  intros [Hst Hinf Hord Hsz Hp Hv Hd Hold Hsl] Hpn Hwf Hck Hgen Hfo Htear.
+  intros [Hst Hinf Hord Hsz Hp Hv Hd Hold Hsl Hsep] Hpn Hwf Hck Hgen Hfo Htear.
   assert (HD : D s (evs ++ [ERootBegin r]) = D s evs) by (rewrite D_snoc; reflexivity).
   constructor; auto.
   - unfold stable_root in *. rewrite marks_snoc. cbn [mark_step fst]. auto.
@@ -60,13 +60,15 @@ Proof.
   - intros off bs Hin. apply in_snoc_other in Hin; [|discriminate].
     destruct (Hv off bs Hin) as (A & B & C). rewrite view_synced in C by auto. splitc; auto. lia.
   - intros img' Hc. rewrite HD in Hc. apply crash_synced in Hc; auto. subst img'. split; [lia | auto].
+  - intros o b Hin. apply in_snoc_other in Hin; [|discriminate]. auto.
+  - intros pre r' He. apply app_inj_tail in He. destruct He as [-> _]. exact Hpn.
 Qed.
 
 Lemma rw_pwrite s evs stable r D0 off bs :
   rw s evs stable r D0 -> piece_of (rec (ser_root r)) (next_slot stable) off bs ->
   rw s (evs ++ [ESys (SPwrite off bs)]) stable r D0.
 Proof.
-  intros [Hst Hinf Hwf Hck Hgen Hfree Hrecs Hold Hsl Htear Himgs] (Hp1 & Hp2 & Hp3).
+  intros [Hst Hinf Hwf Hck Hgen Hfree Hrecs Hold Hsl Htear Himgs Hsep Hsyn] (Hp1 & Hp2 & Hp3).
   constructor; auto.
   - unfold stable_root in *. rewrite marks_sys. auto.
   - unfold inflight in *. rewrite marks_sys. auto.
@@ -77,12 +79,14 @@ Proof.
     intros x. destruct (Hpt x) as [E|[Hr E]].
     + rewrite E. apply Hpt0.
     + right. split; [lia|]. rewrite E. apply Hp3. auto.
+  - intros o b Hin. apply in_snoc_other in Hin; [|discriminate]. auto.
+  - intros pre r' He. apply app_inj_tail in He. destruct He as [_ He]. discriminate.
 Qed.
 
 Lemma rw_sync s evs stable r D0 :
   rw s evs stable r D0 -> rw s (evs ++ [ESys SFdatasync]) stable r D0.
 Proof.
-  intros [Hst Hinf Hwf Hck Hgen Hfree Hrecs Hold Hsl Htear Himgs].
+  intros [Hst Hinf Hwf Hck Hgen Hfree Hrecs Hold Hsl Htear Himgs Hsep Hsyn].
   constructor; auto.
   - unfold stable_root in *. rewrite marks_sys. auto.
   - unfold inflight in *. rewrite marks_sys. auto.
@@ -90,6 +94,8 @@ Proof.
   - intros img' Hc. rewrite D_snoc in Hc. cbn [ev_step disk_step] in Hc.
     apply crash_synced in Hc; [|reflexivity]. cbn [dur] in Hc. subst img'.
     apply Himgs. apply crash_view.
+  - intros o b Hin. apply in_snoc_other in Hin; [|discriminate]. auto.
+  - intros pre r' He. apply app_inj_tail in He. destruct He as [_ He]. discriminate.
 Qed.
 
 (** A slot that holds the complete record of a well-formed, correctly checksummed root validates. *)
@@ -130,7 +136,7 @@ Lemma rw_commit s evs stable r D0 ae :
   free_offset r <= ae -> ae <= isize (dur (D s evs)) ->
   idle s (evs ++ [ECommitted r]) (Some (r, next_slot stable)) (free_offset r) ae.
 Proof.
-  intros [Hst Hinf Hwf Hck Hgen Hfree Hrecs Hold Hsl Htear Himgs] Hpn Hfull Hae1 Hae2.
+  intros [Hst Hinf Hwf Hck Hgen Hfree Hrecs Hold Hsl Htear Himgs Hsep Hsyn] Hpn Hfull Hae1 Hae2.
   set (slot := next_slot stable) in *.
   set (R := rec (ser_root r)) in *.
   assert (HzR : zlen R <= 56) by (unfold R; rewrite zlen_rec; pose proof (zlen_ser_root r); lia).
@@ -184,6 +190,8 @@ Proof.
         rewrite lv_zero by (intros x Hx; apply Hz; consts; lia). reflexivity.
     + destruct (Z.eq_dec ROOT_A slot) as [E|E]; [rewrite E; auto | apply Hother; auto].
     + destruct (Z.eq_dec ROOT_B slot) as [E|E]; [rewrite E; auto | apply Hother; auto].
+  - intros o b Hin. apply in_snoc_other in Hin; [|discriminate].
+    destruct (Hrecs o b Hin) as (A & B & C). left. auto.
 Qed.
 
 (** * The writer *)
@@ -543,32 +551,30 @@ Proof.
 Qed.
 
 Lemma good_zeros s evs :
-  stable_root s evs = None ->
+  stable_root s evs = None -> (forall pre r, evs <> pre ++ [ERootBegin r]) ->
   (forall img', crash (D s evs) img' -> forall x, ibyte img' x = 0%N) -> good s evs.
 Proof.
-  intros Hst Hz img' Hc. unfold outcome_ok, open.
-  rewrite !lv_zero by (intros; eapply Hz; eauto). cbn. auto.
+  intros Hst Hne Hz. split.
+  - intros img' Hc. unfold outcome_ok, open.
+    rewrite !lv_zero by (intros; eapply Hz; eauto). cbn. auto.
+  - intros pre r He. exfalso. eapply Hne; eauto.
 Qed.
 
-Definition crash_recovery_epoch_stmt : Prop :=
-  forall (s : start) (ops : list op) (n : nat) (img' : image),
-    start_ok sip s -> Forall op_typed ops -> tear_free s ops ->
-    let evs := firstn n (epoch_events sip s ops) in
-    crash (disk_after (start_image s) evs) img' ->
-    outcome_ok sip s evs img'.
-
-Lemma crash_recovery_epoch_proof : crash_recovery_epoch_stmt.
+Lemma epoch_steps s ops :
+  start_ok sip s -> Forall op_typed ops -> tear_free s ops ->
+  steps_ok (good s) [] (epoch_events sip s ops).
 Proof.
-  intros s ops n img' Hstart Hty Htf evs Hc.
-  assert (Hall : steps_ok (good s) [] (epoch_events sip s ops)).
-  { destruct s as [|img0 w0]; cbn [epoch_events].
+  intros Hstart Hty Htf.
+  destruct s as [|img0 w0]; cbn [epoch_events].
     - (* fresh file: fallocate, fsync, then the operations *)
       cbn [create fst snd fallocate_evs].
       set (a := FREE_START + PREALLOC_CHUNK).
       assert (H0 : good Fresh []).
-      { apply good_zeros; [reflexivity|]. intros i Hc' x. apply crash_synced in Hc'; [|reflexivity]. subst i. reflexivity. }
+      { apply good_zeros; [reflexivity | intros pre r He; destruct pre; discriminate |].
+        intros i Hc' x. apply crash_synced in Hc'; [|reflexivity]. subst i. reflexivity. }
       assert (H1 : good Fresh ([] ++ [ESys (SFalloc 0 0 a)])).
-      { apply good_zeros; [reflexivity|]. intros i Hc' x. rewrite D_snoc in Hc'. cbn [ev_step] in Hc'.
+      { apply good_zeros; [reflexivity | intros pre r He; apply app_inj_tail in He; destruct He as [_ He]; discriminate |].
+        intros i Hc' x. rewrite D_snoc in Hc'. cbn [ev_step] in Hc'.
         apply crash_step_falloc in Hc'. destruct Hc' as (mid & Hmid & _ & Hb). rewrite Hb.
         apply crash_synced in Hmid; [|reflexivity]. subst mid. reflexivity. }
       assert (Hid : idle Fresh (([] ++ [ESys (SFalloc 0 0 a)]) ++ [ESys SFsync]) None FREE_START a).
@@ -577,7 +583,8 @@ Proof.
         - cbn. constructor.
         - intros off bs [H|[H|[]]]; discriminate.
         - intros off bs [H|[H|[]]]; discriminate.
-        - cbn. split; auto. }
+        - cbn. split; auto.
+        - intros off bs [H|[H|[]]]; discriminate. }
       apply (steps_cons _ [] _ _ H0). apply steps_cons; [exact H1|].
       eapply run_ops_steps; eauto.
       + constructor; reflexivity.
@@ -595,10 +602,42 @@ Proof.
         - cbn. split; [lia | auto].
         - cbn [slots_ok D disk_after fold_left dur start_image]. splitc; auto; try lia.
           + destruct (choose_root_inv _ _ _ _ Ech) as [[? _]|[? _]]; auto.
-          + destruct (choose_root_inv _ _ _ _ Ech) as [[-> E]|[-> E]]; auto. }
+          + destruct (choose_root_inv _ _ _ _ Ech) as [[-> E]|[-> E]]; auto.
+        - intros off bs []. }
       eapply run_ops_steps; eauto.
-      constructor; reflexivity. }
-  unfold steps_ok in Hall. specialize (Hall n). cbn [app] in Hall. apply Hall. exact Hc.
+      constructor; reflexivity.
+Qed.
+
+Definition crash_recovery_epoch_stmt : Prop :=
+  forall (s : start) (ops : list op) (n : nat) (img' : image),
+    start_ok sip s -> Forall op_typed ops -> tear_free s ops ->
+    let evs := firstn n (epoch_events sip s ops) in
+    crash (disk_after (start_image s) evs) img' ->
+    outcome_ok sip s evs img'.
+
+Lemma crash_recovery_epoch_proof : crash_recovery_epoch_stmt.
+Proof.
+  intros s ops n img' Hstart Hty Htf evs Hc.
+  pose proof (epoch_steps s ops Hstart Hty Htf n) as Hall. cbn [app] in Hall.
+  apply (proj1 Hall). exact Hc.
+Qed.
+
+(** Data before root: whenever a root-record write begins, no write is pending — everything
+    written before (all appended items, in particular) has been made durable by a barrier. *)
+Definition data_before_root_stmt : Prop :=
+  forall (s : start) (ops : list op) pre r rest,
+    start_ok sip s -> Forall op_typed ops -> tear_free s ops ->
+    epoch_events sip s ops = pre ++ ERootBegin r :: rest ->
+    pnd (disk_after (start_image s) pre) = [].
+
+Lemma data_before_root_proof : data_before_root_stmt.
+Proof.
+  intros s ops pre r rest Hstart Hty Htf He.
+  pose proof (epoch_steps s ops Hstart Hty Htf (length pre + 1)%nat) as Hall. cbn [app] in Hall.
+  rewrite He in Hall. rewrite firstn_app in Hall.
+  rewrite firstn_all2 in Hall by lia.
+  replace (length pre + 1 - length pre)%nat with 1%nat in Hall by lia. cbn [firstn] in Hall.
+  exact (proj2 Hall pre r eq_refl).
 Qed.
 
 (** ** The headline case: a file created by this run *)
@@ -619,6 +658,8 @@ Definition crash_recovery_stmt : Prop :=
       /\ FREE_START <= free_offset r <= isize img'
       /\ (forall off bs, In (EAppended off bs) evs -> off + 4 + zlen bs <= free_offset r ->
             FREE_START <= off /\ read img' off (4 + zlen bs) = Some (be32_bytes (zlen bs) ++ bs))
+      /\ (forall off bs, In (EAppended off bs) evs ->
+            off + 4 + zlen bs <= free_offset r \/ free_offset r <= off)
     end.
 
 Lemma crash_recovery_proof : crash_recovery_stmt.
@@ -627,7 +668,7 @@ Proof.
   pose proof (crash_recovery_epoch_proof Fresh ops n img' I Hty Htf Hc) as H.
   unfold outcome_ok in H. fold evs in H.
   destruct (open sip img') as [w'|].
-  - destruct H as [Hr (Hf & Hrec & _)]. cbv zeta. splitc; auto; try lia.
+  - destruct H as [Hr (Hf & Hrec & Hsep & _)]. cbv zeta. splitc; auto; try lia.
     unfold stable_root, last_committed, root_in_flight, inflight, base_root in *.
     destruct (fst (marks evs)); auto.
   - unfold stable_root, last_committed, base_root in *. destruct (fst (marks evs)); auto.
@@ -652,7 +693,7 @@ Proof.
   intros s H. induction H as [|s ops n img' w' Hr IH Hty Htf Hc Hop]; [exact I|].
   pose proof (crash_recovery_epoch_proof s ops n img' IH Hty Htf Hc) as Hout.
   unfold outcome_ok in Hout. rewrite Hop in Hout.
-  destruct Hout as [_ (Hf & _ & _ & Hwf & HA & HB)].
+  destruct Hout as [_ (Hf & _ & _ & _ & Hwf & HA & HB)].
   cbn [start_ok]. splitc; auto; lia.
 Qed.
 
